@@ -189,6 +189,25 @@ env_proof! {
     }
 }
 
+// observers and flush never panic either
+// @harness name=c16_observers_flush prop=C16 tier=quick timeout=1500
+env_proof! {
+    unwind = 6, rot = ghost, crc = off,
+    fn c16_observers_flush() {
+        let (mut rl, st) = mk();
+        let s1 = rl.stat();
+        let sz = rl.on_disk_size();
+        assert!(sz == s1.open_chunk.size);
+        core::mem::forget(s1);
+        rl.drain_cache_evictable();
+        let r = rl.flush(None);
+        kani::cover!(r.is_ok(), "flush queued");
+        let _ = is_ok(r);
+        let _ = st;
+        core::mem::forget(rl);
+    }
+}
+
 // ---- twin harnesses restricted to the listed known finding ----
 
 // @harness name=c16_known_maxindex_purge prop=C16 tier=quick timeout=1200 kind=known
